@@ -306,7 +306,10 @@ def interpreter_thread(ctx):
     runs = {k for k, g in binp.fns.items() for c in g.calls() if (c.callee or "").startswith("naijascript::runtime::Runtime::run")}
 
     def reaches_run(start):
-        seen, st = set(), [start]
+        # (the call graph files a closure's calls under its parent: begin with the closure's own call sites)
+        seen, st = set(), [parent_fn(c.callee) for c in binp.fns[start].calls() if c.callee and parent_fn(c.callee) in {parent_fn(k) for k in binp.fns}] if start in binp.fns and "{closure" in start else [start]
+        if start in runs:
+            return True
         while st:
             x = st.pop()
             if x in seen:
@@ -671,6 +674,20 @@ def nesting_bound(ctx):
         if all(re.match(r"^Sub\(.+,1\)$", sh(ne(g.deep(c.args[pidx])))) for g, c in rec if len(c.args) > pidx):
             res["P"] = fid
             res["pidx"] = pidx
+            # every item is examined: the call that visits the items (any / a loop) is gated by the budget test and the
+            # Array match only - a further condition on one particular item (`first()`) lets the others through unseen
+            gated = []
+            for c in fn.calls():
+                if (c.callee or "").split("::")[-1] in ("any", "all", "try_for_each", "fold", "next") and "iter" in sh(ne(fn.deep(c.args[0]))):
+                    for S_, al_ in fn.constraints(c.block):
+                        si_ = fn.switch_info(S_)
+                        d_ = sh(ne(fn.deep(fn.blocks[S_]["t"]["d"])))
+                        if si_["kind"] == "discr" and "runtime::Value" in si_["ty"] and not re.search(r"first\(|last\(|get\(|\[", d_):
+                            continue
+                        if si_["kind"] == "bin" and any(isinstance(o, dict) and o.get("int") == 0 for o in (si_["a"], si_["b"])):
+                            continue
+                        gated.append(d_[:50])
+            res["partial"] = gated
             break
     P = res["P"]
     events = {}      # fn id -> [(block of the test, operand holding the tested value)]
@@ -710,6 +727,13 @@ def nesting_bound(ctx):
                             hops += 1
                         errs = errs and found
                     if deeper and errs:
+                        # ... and the test cannot be bypassed: without its "not deeper" outcome no Ok is reachable in a routine
+                        # whose only job is this check (`a && deeper(..)` in the place of `a || deeper(..)` skips the test
+                        # whenever a is false)
+                        oks_here = {bb for bb in fn.live for st in fn.blocks[bb]["s"] if st["lhs"]["l"] == 0 and st["rv"]["k"] == "agg" and st["rv"].get("variant") == "Ok"}
+                        if not fam_calls(prog, fid) and oks_here and (fn.reach([0], removed_edges=[(S, 0)]) & oks_here):
+                            res.setdefault("bypass", []).append((fid, c.block))
+                            continue
                         events.setdefault(fid, []).append((c.block, c.args[vidx], S, rlocal))
                         e = fn.deep(c.args[vidx])
                         while e[0] in ("ref", "deref"):
@@ -816,6 +840,11 @@ def r3_data_depth_is_bounded(ctx):
     from evaluated items, a value pushed into an array, a value written over an element - is covered by a propagated call of
     that routine on the value concerned.  R2 then prices L levels of the measured per-level cost into the stack budget."""
     nb = nesting_bound(ctx)
+    if nb.get("bypass"):
+        fidb, bb = nb["bypass"][0]
+        ctx.bad("nesting|check-bypassed|%s" % fidb.split("::")[-1], ctx.lib.fns[fidb].where(bb), "%s can return Ok without having asked the depth predicate (the test sits behind another condition): the limit is not enforced on that path" % fidb.split("::")[-1])
+    if nb.get("partial"):
+        ctx.bad("nesting|predicate-skips-items", ctx.need(nb["P"]).where(), "%s visits the items of an array only under `%s`: items it does not look at can nest as deep as they like" % (nb["P"].split("::")[-1], nb["partial"][0]))
     if nb["P"] is None or nb["L"] is None or not nb["guards"]:
         ctx.bad("nesting|no-bound", ctx.need("runtime::Value::clone_into").where(),
                 "nothing bounds how deep arrays can be nested inside arrays (no depth-limited predicate over a Value whose 'too deep' outcome becomes an error): %d places let a script add a level per step, and a few thousand levels (a loop around `a get [[[[..a..]]]]`) are enough for the unprobed recursions over the data - copy, relocation, drop, printing - to overflow the native stack" % len(nb["sites"]))
